@@ -1,6 +1,6 @@
 // C19 — simplex parametrisations always yield a probability vector and invert exactly
 // VF-VARIANT: san
-// VF-RULE: E2 product spaces, every index executed. (1) theta-lattice: method x zero-allowing flag x dimension x every theta vector of the lattice {1e-9,1/4,1/2,3/4,1-1e-9}^(n-1) (n<=7), and for 8<=n<=33 every vector that deviates from one of three base vectors (theta==1/2, theta==1/4, theta_i=1/(n-i)) in at most D coordinates to any lattice value; each is pushed through all three update entry points, copied (constructor, clone, assignment) and mutated, and fed back through both probability entry points. (2) probability vectors: every composition of 8 into n positive parts (/8, n<=8) and 12 constructed families with entries down to 1e-9 for every n in 1..33, through the constructor, the frequency setter on a fresh and on a used object, plain and ordered variant. (3) injectivity: per method and n<=7 the images of the whole theta lattice are sorted and scanned for duplicates. (4) the two other users of the global-ratio coding that keep a copy of the vector next to the parameters: every operation history up to depth 4 (thorough 5) over 8 operations on a FullHmmTransitionMatrix (two caching readers, frequency setter with three matrices, two parameter update routes, copy; n=2,3) and over 9 operations on a MixtureOfDiscreteDistributions of constants (five parameter update routes incl. a zero theta, three namespaces, copy; n=2,3); after every operation the rows / weights the getters return are compared with the image of the parameters the object reports. A case is non-trivial when n>=2.
+// VF-RULE: E2 product spaces, every index executed. (1) theta-lattice: method x zero-allowing flag x dimension x every theta vector of the lattice {1e-9,1/4,1/2,3/4,1-1e-9}^(n-1) (n<=7), and for 8<=n<=33 every vector that deviates from one of three base vectors (theta==1/2, theta==1/4, theta_i=1/(n-i)) in at most D coordinates to any lattice value; each is pushed through all three update entry points, copied (constructor, clone, assignment) and mutated, and fed back through both probability entry points. (2) probability vectors: every composition of 8 into n positive parts (/8, n<=8) and 12 constructed families with entries down to 1e-9 for every n in 1..33, through the constructor, the frequency setter on a fresh and on a used object, plain and ordered variant. (3) injectivity: per method and n<=7 the images of the whole theta lattice are sorted and scanned for duplicates. (4) the two other users of the global-ratio coding that keep a copy of the vector next to the parameters: every operation history up to depth 4 (thorough 5) over 8 operations on a FullHmmTransitionMatrix (two caching readers, frequency setter with three matrices, two parameter update routes, copy; n=2,3) and over 9 operations on a MixtureOfDiscreteDistributions of constants (five parameter update routes incl. a zero theta, three namespaces, copy; n=2,3); after every operation the rows / weights the getters return are compared with the image of the parameters the object reports. (5) every history up to depth 3 (thorough 4) over 9 operations on one Simplex / OrderedSimplex object (method x zero-allowing x n=2..4): single-parameter and list updates (a foreign parameter first in the list), the frequency setter with two admissible vectors and two vectors it refuses (a zero entry, a sum of 1.1), copy; after every operation, refused or not, the probabilities must be the image of the reported parameters (fresh object as reference) and the ordered values the tail sums of the probabilities. A case is non-trivial when n>=2.
 // VF-BOUND: theta in a 5-value lattice instead of (0,1); full lattice only for n<=7 (quick n<=6), beyond that at most D deviating coordinates (quick: D=2 for n<=9 and n in 15..17, D=1 otherwise; thorough: D=2 for every n<=33 and D=3 for n in {8,9,16}); probability vectors from dyadic compositions (n<=8) and 12 families per dimension instead of the whole simplex; all dimensions 1..33 are covered for the families and the deviation lattice; the histories of (4) are bounded in depth (4 / 5), in dimension (2, 3) and in the values written (listed in the harness)
 // VF-LEVEL: bounded-exhaustive check on the real classes: every listed method x dimension x lattice vector is executed; tolerances are forward-error bounds of the documented formulas evaluated in double, derived next to their use; nothing sampled
 // VF-ASSUME: IEEE double arithmetic with round-to-nearest;; the parameters of a simplex are stored as doubles, so a probability vector is 'returned unchanged to rounding' when it is within the forward error of rounding the parameters (this scales with p_i/p_(i+1) for the local-ratio method);; behaviour between lattice points is not observed
@@ -358,7 +358,7 @@ static Vd hrow(int n, int which, int i) {
   Vd r; for (int j = 0; j < n; ++j) r.push_back(n == 2 ? R2[which][i][j] : R3[which][i][j]); return r;
 }
 static const int HOPS = 8;
-static const char* HOPN[HOPS] = {"getPij", "getEquilibriumFrequencies", "set(A)", "set(B)", "set(C)", "setParameterValue(1.theta1=0.25)", "matchParametersValues(row2 thetas=0.6)", "copy"};
+static const char* HOPN[HOPS] = {"getPij", "getEquilibriumFrequencies", "set(A)", "set(B)", "set(C)", "setParameterValue(1.theta1=0.25)", "matchParametersValues(foreign, row2 thetas=0.6)", "copy"};
 static void hmmHistory(int n, const std::vector<int>& ops, vf::Case& c) {
   std::string ctx = "FullHmmTransitionMatrix n=" + str(n) + " history:";
   try {
@@ -380,7 +380,7 @@ static void hmmHistory(int n, const std::vector<int>& ops, vf::Case& c) {
           c.site("FullHmmTransitionMatrix::setTransitionProbabilities"); T->setTransitionProbabilities(M);
           break; }
         case 5: c.site("FullHmmTransitionMatrix::setParameterValue"); T->setParameterValue("1.theta1", 0.25); th[0][0] = 0.25; given[0].clear(); break;
-        case 6: { ParameterList pl; for (int j = 0; j + 1 < n; ++j) { pl.addParameter(Parameter("2.theta" + str(j + 1), 0.6)); th[1][j] = 0.6; } given[1].clear();
+        case 6: { ParameterList pl; pl.addParameter(Parameter("zz.other", 0.1)); for (int j = 0; j + 1 < n; ++j) { pl.addParameter(Parameter("2.theta" + str(j + 1), 0.6)); th[1][j] = 0.6; } given[1].clear();
           c.site("FullHmmTransitionMatrix::matchParametersValues"); T->matchParametersValues(pl); break; }
         case 7: c.site("FullHmmTransitionMatrix::clone"); T.reset(T->clone()); break;
       }
@@ -418,7 +418,7 @@ static void hmmHistory(int n, const std::vector<int>& ops, vf::Case& c) {
 }
 
 static const int MOPS = 9;
-static const char* MOPN[MOPS] = {"setParameterValue(theta1=0.25)", "setParameterValue(theta1=0.6)", "matchParametersValues(all thetas=0.75)", "setParametersValues(last theta=0)", "setAllParametersValues(thetas=1/2)", "setNamespace(A.)", "setNamespace()", "setNamespace(Mixture.)", "copy"};
+static const char* MOPN[MOPS] = {"setParameterValue(theta1=0.25)", "setParameterValue(theta1=0.6)", "matchParametersValues(foreign, all thetas=0.75)", "setParametersValues(last theta=0)", "setAllParametersValues(thetas=1/2)", "setNamespace(A.)", "setNamespace()", "setNamespace(Mixture.)", "copy"};
 static void mixHistory(int n, const std::vector<int>& ops, vf::Case& c) {
   std::string ctx = "MixtureOfDiscreteDistributions of " + str(n) + " constants, history:";
   try {
@@ -450,7 +450,7 @@ static void mixHistory(int n, const std::vector<int>& ops, vf::Case& c) {
       ctx += std::string(" ") + MOPN[op];
       switch (op) {
         case 0: case 1: { double v = op == 0 ? 0.25 : 0.6; c.site("MixtureOfDiscreteDistributions::setParameterValue"); M->setParameterValue("theta1", v); th[0] = v; given.clear(); break; }
-        case 2: { ParameterList pl; for (int i = 0; i + 1 < n; ++i) { pl.addParameter(Parameter(ns + "theta" + str(i + 1), 0.75)); th[i] = 0.75; } given.clear();
+        case 2: { ParameterList pl; pl.addParameter(Parameter("zz.other", 0.1)); for (int i = 0; i + 1 < n; ++i) { pl.addParameter(Parameter(ns + "theta" + str(i + 1), 0.75)); th[i] = 0.75; } given.clear();
           c.site("MixtureOfDiscreteDistributions::matchParametersValues"); M->matchParametersValues(pl); break; }
         case 3: { ParameterList pl; pl.addParameter(Parameter(ns + "theta" + str(n - 1), 0.0)); th[n - 2] = 0.0; given.clear();
           c.site("MixtureOfDiscreteDistributions::setParametersValues"); M->setParametersValues(pl); break; }
@@ -464,6 +464,61 @@ static void mixHistory(int n, const std::vector<int>& ops, vf::Case& c) {
     }
     c.nontrivial(); c.tag("mixture-weights-history");
   } catch (bpp::Exception& e) { c.fail("mixture-weights|exception", ctx + ": " + line1(e.what())); }
+}
+
+// ---- histories on one Simplex / OrderedSimplex object, rejected setter calls included ---------------------------------------------
+// After every operation (accepted or refused with the library's exception) the probabilities the getter returns must be the image of the
+// parameters the object reports: a fresh object given the same parameters is the reference (same code, no history).
+static const int SOPS = 9;
+static const char* SOPN[SOPS] = {"setParameterValue(theta1=0.25)", "setParameterValue(last theta=0.75)", "matchParametersValues(foreign, one theta=0.6)", "setFrequencies(ramp)", "setFrequencies(uniform)",
+                                 "setFrequencies(first entry 0, sums to one)", "setFrequencies(sums to 1.1)", "copy", "matchParametersValues(every theta=0.4)"};
+static void simplexHistory(int m, bool allowNull, bool ordered, int n, const std::vector<int>& ops, vf::Case& c) {
+  std::string ctx = std::string(ordered ? "OrderedSimplex " : "Simplex ") + MN[m] + (allowNull ? " allowNull" : "") + " n=" + str(n) + " history:";
+  auto orderedOf = [](const Vd& p) { Vd v(p.size()); long double x = 0; for (size_t i = p.size(); i > 0; --i) { x += (long double)p[i - 1] / i; v[i - 1] = (double)x; } return v; };
+  try {
+    std::unique_ptr<Simplex> S(ordered ? new OrderedSimplex((size_t)n, (unsigned short)m, allowNull) : new Simplex((size_t)n, (unsigned short)m, allowNull));
+    // neither the setter nor the getter is virtual: the ordered variant is driven through its own type
+    auto setF = [&](const Vd& v) { if (ordered) dynamic_cast<OrderedSimplex&>(*S).setFrequencies(v); else S->setFrequencies(v); };
+    for (size_t k = 0; k <= ops.size(); ++k) {
+      if (k > 0) {
+        int op = ops[k - 1]; ctx += std::string(" ") + SOPN[op];
+        Vd ramp, unif((size_t)n, 1.0 / n), zero, big;
+        { double tot = n * (n + 1) / 2.0; for (int i = 0; i < n; ++i) ramp.push_back((n - i) / tot); }     // decreasing: admissible for both variants
+        zero = ramp; zero[1] += zero[0]; zero[0] = 0; big = ramp; big[0] += 0.1;
+        if (ordered) { ramp = orderedOf(ramp); unif = orderedOf(unif);                                     // the ordered setter takes values, not probabilities
+          zero = orderedOf(zero); big = orderedOf(big); }
+        try {
+          switch (op) {
+            case 0: c.site("Simplex::setParameterValue"); S->setParameterValue("theta1", 0.25); break;
+            case 1: c.site("Simplex::setParameterValue"); S->setParameterValue(tname(n - 2), 0.75); break;
+            case 2: { ParameterList pl; pl.addParameter(Parameter("zz.other", 0.1)); pl.addParameter(Parameter(S->getNamespace() + tname(n >= 3 ? 1 : 0), 0.6)); c.site("Simplex::matchParametersValues"); S->matchParametersValues(pl); break; }
+            case 3: c.site("Simplex::setFrequencies"); setF(ramp); break;
+            case 4: c.site("Simplex::setFrequencies"); setF(unif); break;
+            case 5: c.site("Simplex::setFrequencies (zero entry)"); setF(zero); break;
+            case 6: c.site("Simplex::setFrequencies (sum 1.1)"); setF(big); break;
+            case 7: c.site("Simplex::clone"); S.reset(ordered ? new OrderedSimplex(dynamic_cast<OrderedSimplex&>(*S)) : S->clone()); break;
+            case 8: { ParameterList pl; for (int i = 0; i + 1 < n; ++i) pl.addParameter(Parameter(S->getNamespace() + tname(i), 0.4)); c.site("Simplex::matchParametersValues"); S->matchParametersValues(pl); break; }
+          }
+        } catch (bpp::Exception&) { ctx += "(refused)"; c.tag(std::string("simplex-history:refused:") + (op == 5 ? "zero-entry" : op == 6 ? "sum" : "other")); }
+      }
+      c.site("Simplex::getFrequencies (history audit)");
+      Vd th = thetas(*S);
+      bool open = true; for (double t : th) if (!(t > 0 && t < 1)) open = false;
+      if (!open) { c.tag("simplex-history:parameter-on-the-closed-boundary(not judged further)"); return; }    // outside the open cube (zero-allowing objects only)
+      auditConstraints(*S, allowNull, c, ctx);
+      Simplex F((size_t)n, (unsigned short)m, allowNull); setThetas(F, th, 0, c);
+      Vd want = F.getFrequencies(), got = S->Simplex::getFrequencies(), tol = tolP(m, want);
+      if (!auditProb(got, (size_t)n, c, "simplex-history|probabilities", ctx)) return;
+      for (int i = 0; i < n; ++i) if (!(std::fabs(got[i] - want[i]) <= tol[i])) { c.fail(std::string("simplex-history|probabilities-differ-from-the-image-of-the-parameters|") + MN[m], ctx + ": holds " + vstr(got) + ", a fresh object with theta=" + vstr(th) + " gives " + vstr(want)); return; }
+      for (int i = 0; i < n; ++i) if (S->prob((size_t)i) != got[i]) { c.fail("simplex-history|prob-vs-getFrequencies", ctx); return; }
+      if (ordered) {
+        Vd vw = orderedOf(got), vg = dynamic_cast<OrderedSimplex&>(*S).getFrequencies();
+        if (vg.size() != (size_t)n) { c.fail("ordered-history|size", ctx); return; }
+        for (int i = 0; i < n; ++i) if (!(std::fabs(vg[i] - vw[i]) <= 4 * n * EPS)) { c.fail("ordered-history|values-differ-from-the-tail-sums-of-the-probabilities", ctx + ": returns " + vstr(vg) + ", the probabilities " + vstr(got) + " give " + vstr(vw)); return; }
+      }
+    }
+    c.nontrivial(); c.tag(ordered ? "ordered-history" : "simplex-history");
+  } catch (bpp::Exception& e) { c.fail(std::string("simplex-history|exception|") + MN[m], ctx + ": " + line1(e.what())); }
 }
 
 int main(int argc, char** argv) {
@@ -546,6 +601,18 @@ int main(int argc, char** argv) {
     R.space("hmm-rows:histories<=" + str(HD) + ":ops" + str(HOPS) + ":n2..3", hc * 2, [=](uint64_t idx, vf::Case& c) { hmmHistory(2 + (int)(idx % 2), decode(idx / 2, HOPS), c); if (idx % 997 == 5) c.sample("hmm rows history #" + str(idx)); }, 10.0);
     R.space("mixture-weights:histories<=" + str(MD) + ":ops" + str(MOPS) + ":n2..3", mc * 2, [=](uint64_t idx, vf::Case& c) { mixHistory(2 + (int)(idx % 2), decode(idx / 2, MOPS), c); if (idx % 997 == 5) c.sample("mixture weights history #" + str(idx)); }, 10.0);
   }
+  {
+    int SD = th ? 4 : 3;
+    uint64_t sc = 0; { uint64_t p = 1; for (int d = 0; d <= SD; ++d) { sc += p; p *= SOPS; } }
+    auto decode = [](uint64_t k, int base) { std::vector<int> ops; uint64_t p = 1; int d = 0; while (k >= p) { k -= p; p *= base; ++d; } for (int i = 0; i < d; ++i) { ops.push_back((int)(k % base)); k /= base; } return ops; };
+    // variant index: method(3) x allowNull(2) x ordered(2) x n in {2,3,4}
+    R.space("simplex-history:histories<=" + str(SD) + ":ops" + str(SOPS) + ":methods3:null2:ordered2:n2..4", sc * 36, [=](uint64_t idx, vf::Case& c) {
+      std::vector<int> d = vf::digits(idx % 36, {3, 2, 2, 3});
+      simplexHistory(d[0] + 1, d[1] == 1, d[2] == 1, 2 + d[3], decode(idx / 36, SOPS), c);
+      if (idx % 4999 == 5) c.sample("simplex history #" + str(idx));
+    }, 10.0);
+  }
+  R.expectSeen("simplex-history"); R.expectSeen("ordered-history"); R.expectSeen("simplex-history:refused:zero-entry"); R.expectSeen("simplex-history:refused:sum");
   R.expectSeen("hmm-rows-history"); R.expectSeen("mixture-weights-history");
   R.expectSeen("global-ratio-theta"); R.expectSeen("local-ratio-theta"); R.expectSeen("binary-theta");
   R.expectSeen("global-ratio-prob"); R.expectSeen("local-ratio-prob"); R.expectSeen("binary-prob");
